@@ -111,6 +111,14 @@ Theorem C04_wellformed_is_invariant : forall wbs r h431 fx F (x : sim) (rd : rou
   (bad x' = true \/ cpl (m x') <> Some 0) /\ Forall pos_head (todo x').
 Proof. intros wbs r h431 fx F x rd x' p H. exact (poll_preserves_wf _ F x rd x' p H). Qed.
 
+(* the epilogue guard of Dispatcher::poll (`state_is_none && write_buf.is_empty()` before the stored
+   stream error is surfaced): whenever the composer's poll resolves with that error, write_buf is
+   empty and no request is in progress -- no response byte is dropped with the I/O object.  (The
+   only other failing result of the composer, PFailIo, is a failure of the write side itself.) *)
+Theorem C04_error_only_after_flush : forall wbs r h431 fx F (x : sim) (rd : round) (x' : sim),
+  poll (std_cfg wbs r h431 fx) F x rd = (x', PFailTooLarge) -> wb (m x') = 0 /\ state (m x') = SNone.
+Proof. intros wbs r h431 fx F x rd x'. apply error_only_after_flush. Qed.
+
 (* bounded-response liveness of the write side: against a socket whose first answer in every poll
    accepts at least one byte, |write_buf| polls empty the buffer, with everything on the wire *)
 Theorem C04_flush_drains_within_partial : forall (s : fstate) (ops : list fop),
